@@ -138,7 +138,6 @@ static int new_packet(int sk_fd, int can_socket) {
     frame_t frame;
     canid_t can_id;
 
-    memset(&frame, 0, sizeof(struct canfd_frame));
     res = recv(sk_fd, pdu, MAX_PDU_SIZE, 0);
     if (res < 0 || res > MAX_PDU_SIZE) {
         perror("Failed to receive data");
@@ -171,6 +170,7 @@ static int new_packet(int sk_fd, int can_socket) {
     while (msg_proc_bytes < msg_length) {
 
         acf_pdu = &pdu[proc_bytes + msg_proc_bytes];
+        memset(&frame, 0, sizeof(frame));
 
         if (!is_valid_acf_packet(acf_pdu)) {
             return 0;
